@@ -820,15 +820,13 @@ struct elements_iterator_t : boost::multi::random_accessable<elements_iterator_t
 
 	BOOST_MULTI_HD constexpr auto operator+=(difference_type n) -> elements_iterator_t& {
 		if(n == 0) { return *this; }  // also keeps `it + 0` valid for ranges with zero elements (e.g. uninitialized_copy_n(first, 0, dest))
-		auto const nn = std::apply(xs_, ns_);
-		ns_ = xs_.from_linear(nn + n);
+		ns_ = xs_.from_linear(n_ + n);  // from the position itself: the index tuple of an end reached by ++ has wrapped around
 		n_ += n;
 		return *this;
 	}
 	BOOST_MULTI_HD constexpr auto operator-=(difference_type n) -> elements_iterator_t& {
 		if(n == 0) { return *this; }
-		auto const nn = std::apply(xs_, ns_);
-		ns_ = xs_.from_linear(nn - n);
+		ns_ = xs_.from_linear(n_ - n);
 		n_ -= n;
 		return *this;
 	}
@@ -856,8 +854,7 @@ struct elements_iterator_t : boost::multi::random_accessable<elements_iterator_t
 	BOOST_MULTI_HD constexpr auto operator->() const -> pointer   {return base_ + std::apply(l_, ns_) ;}
 	BOOST_MULTI_HD constexpr auto operator*()  const -> reference {return base_  [std::apply(l_, ns_)];}
 	BOOST_MULTI_HD constexpr auto operator[](difference_type const& n) const -> reference {
-		auto const nn = std::apply(xs_, ns_);
-		return base_[std::apply(l_, xs_.from_linear(nn + n))];
+		return base_[std::apply(l_, xs_.from_linear(n_ + n))];
 	}  // explicit here is necessary for nvcc/thrust
 
 	#if defined(__clang__)
